@@ -338,8 +338,9 @@ def replay(ctx, payload):
     inp = payload.get('input') or {}
     if 'ops' in inp and 'dag' in inp:
         dag = [(k, b, tuple(r)) for k, b, r in inp['dag']]
-        for form in range(6):            # the argument form of store_bit rotates with a process-wide counter: replay every phase
+        for form in range(24):           # the argument forms of store_bit / store_bits rotate with process-wide counters: replay every phase
             S._BIT_FORM[0] = form
+            S._BITS_FORM[0] = form
             check_roundtrip(ctx, dag, G.lib_build(dag), inp['ops'], inp.get('tag', 'replay'))
     elif 'len' in inp and 'prefill' in inp:
         snake(ctx, int(inp['len']), int(inp['prefill']))
